@@ -23,6 +23,22 @@ def generate(rng, seed, index, tier):
     fam = str(rng.choice(["qp", "nlp", "degenerate", "domain", "infeasible", "saddle"], p=[0.25, 0.25, 0.05, 0.25, 0.05, 0.15]))
     spec, x0, y0 = gen.gen_problem(rng, fam, fixed_prob=0.4)
     x0 = gen.magnify(rng, spec, x0, p=0.1)
+    if spec["m"] and rng.random() < 0.04:
+        # one row with astronomically large (finite) coefficients: products with it overflow, linear solves may
+        # come back non-finite - whatever happens, the user's functions are still only asked inside the box
+        import numpy as np
+
+        i = int(rng.integers(0, spec["m"]))
+        k = int(rng.choice([340, 500, 660]))
+        for key in ("A", "B"):
+            M = np.array(spec[key], float)
+            M[i] = np.ldexp(M[i], k)
+            spec[key] = M
+        for key in ("b", "cl", "cu"):
+            v = np.array(spec[key], float)
+            v[i] = np.ldexp(v[i], k) if np.isfinite(np.ldexp(v[i], k)) else v[i]
+            spec[key] = v
+        spec["extreme_row"] = True
     if fam in ("qp", "nlp", "saddle") and rng.random() < 0.1:
         x0 = gen.integer_bounds(rng, spec, x0)
     x0, y0, sform = gen.start_forms(rng, spec, x0, y0, p=0.12)
